@@ -119,6 +119,13 @@ class Builder:
         self.inline = inline  # callable(FuncInfo caller, ast.Call, callee FuncInfo) -> bool
         self.max_depth = max_depth
         self.resolver = None  # set to callgraph.Resolver for inlining
+        self._sites = {}
+
+    def site_id(self, node):
+        k = id(node)
+        if k not in self._sites:
+            self._sites[k] = f"{getattr(node, 'lineno', 0)}:{getattr(node, 'col_offset', 0)}#{len(self._sites)}"
+        return self._sites[k]
 
     # ---------------------------------------------------------------------------------------
     def summarize(self, func: FuncInfo, bindings=None, env=None, depth=0, self_cls=None):
@@ -346,6 +353,43 @@ class _Eval:
     s_Continue = s_Break
 
     # ---------------------------------------------------------------------------------------
+    def _namedtuple_field(self, v, attr):
+        """NT(a, b, c).field -> the argument, when NT is a module-level namedtuple with literal field names"""
+        if v[0] == "phi":
+            a, b_ = self._namedtuple_field(v[2], attr), self._namedtuple_field(v[3], attr)
+            if a is not None and b_ is not None:
+                return a if a == b_ else I(("phi", v[1], a, b_))
+            return None
+        if not (v[0] == "call" and v[1][0] == "global" and ":" in v[1][1]):
+            return None
+        mod, name = v[1][1].split(":", 1)
+        m = self.b.repo.modules.get(mod)
+        node = m.constants.get(name) if m else None
+        if not (isinstance(node, ast.Call) and isinstance(node.func, ast.Name) and node.func.id == "namedtuple" and len(node.args) >= 2
+                and isinstance(node.args[1], (ast.List, ast.Tuple))):
+            return None
+        fields = [x.value for x in node.args[1].elts if isinstance(x, ast.Constant)]
+        if attr not in fields:
+            return None
+        i = fields.index(attr)
+        if i < len(v[2]):
+            return v[2][i]
+        for k, val in v[3]:
+            if k == attr:
+                return val
+        return ("const", None)
+
+    def _constructor_like(self, fnode, ft):
+        name = _ctor_name(ft)
+        if not name or not name[:1].isupper() or name.isupper():
+            return False
+        if ft[0] == "global" and ":" in ft[1]:
+            r = self.b.repo.resolve_dotted(ft[1].replace(":", "."))
+            return r is not None and r[0] == "class" and not r[1].name.endswith(("Exception", "Error")) and \
+                not any(b_ == "Exception" for b_ in r[1].external_bases)
+        return name in ("QuantileRegressionSolver", "OLSRegressionSolver", "BytesIO", "StringIO", "Queue", "DataFrame", "Series",
+                        "TransferManager")
+
     def fork(self):
         e = _Eval.__new__(_Eval)
         e.b, e.func, e.module, e.depth, e.self_cls = self.b, self.func, self.module, self.depth, self.self_cls
@@ -452,6 +496,9 @@ class _Eval:
                 return self.attrs[e.attr]
             return ("attr", ("param", "self"), e.attr)
         v = self.expr(e.value)
+        nt = self._namedtuple_field(v, e.attr)
+        if nt is not None:
+            return nt
         if v[0] == "global":
             r = self.b.repo.resolve_dotted(v[1].replace(":", ".") + "." + e.attr) if ":" not in v[1] else None
             if r is not None and r[0] in ("class", "func"):
@@ -596,6 +643,9 @@ class _Eval:
             ft = ("attr", ("global", "super"), f.attr)
         else:
             ft = self.expr(f)
+        if self._constructor_like(f, ft):
+            # object identity: two syntactically equal constructor calls create two objects
+            kws = kws + (("#new", ("const", self.b.site_id(e))),)
         term = ("call", ft, args, kws)
         # optional inlining of repo callees
         if self.b.inline is not None and self.b.resolver is not None and self.depth < self.b.max_depth:
@@ -620,6 +670,13 @@ class _Eval:
         return term
 
 
+def _ctor_name(ft):
+    if ft[0] == "global":
+        last = ft[1].split(":")[-1].split(".")[-1]
+        return last
+    return None
+
+
 def _is_static(fi):
     return any(isinstance(d, ast.Name) and d.id == "staticmethod" for d in fi.node.decorator_list)
 
@@ -632,6 +689,7 @@ def bind_args(callee, args, kws, method=False):
     out = {}
     if any(a[0] == "starred" for a in args) or any(k is None for k, _ in kws):
         return None
+    kws = tuple((k, v) for k, v in kws if k != "#new")
     extra = []
     for i, a in enumerate(args):
         if i < len(params):
@@ -645,6 +703,8 @@ def bind_args(callee, args, kws, method=False):
             return None
     extra_kw = []
     for k, v in kws:
+        if k == "#new":
+            continue
         if k in params or k in callee.kwonly:
             out[k] = v
         else:
@@ -772,6 +832,40 @@ def children(t):
     return ()
 
 
+def map_children(t, fn):
+    """Rebuild term t with fn applied to each direct sub-term."""
+    k = t[0]
+    if k in ("const", "param", "global", "lambda", "closure", "unknown", "exc"):
+        return t
+    if k == "attr":
+        return I((k, fn(t[1]), t[2]))
+    if k == "setattr":
+        return I((k, fn(t[1]), t[2], fn(t[3])))
+    if k == "sub":
+        return I((k, fn(t[1]), fn(t[2])))
+    if k == "slice":
+        return I((k, fn(t[1]), fn(t[2]), fn(t[3])))
+    if k == "call":
+        return I((k, fn(t[1]), tuple(fn(a) for a in t[2]), tuple((kk, v if kk == "#new" else fn(v)) for kk, v in t[3])))
+    if k == "mut":
+        return I((k, fn(t[1]), t[2], tuple(fn(a) for a in t[3]), tuple((kk, fn(v)) for kk, v in t[4])))
+    if k in ("bin", "cmp"):
+        return I((k, t[1], fn(t[2]), fn(t[3])))
+    if k == "un":
+        return I((k, t[1], fn(t[2])))
+    if k == "bool":
+        return I((k, t[1], tuple(fn(x) for x in t[2])))
+    if k in ("ifexp", "phi", "setitem"):
+        return I((k, fn(t[1]), fn(t[2]), fn(t[3])))
+    if k in ("fstr", "tuple", "list", "set"):
+        return I((k, tuple(fn(x) for x in t[1])))
+    if k == "dict":
+        return I((k, tuple((fn(a) if a is not None else None, fn(b)) for a, b in t[1])))
+    if k == "starred":
+        return I((k, fn(t[1])))
+    return t
+
+
 def walk(term):
     """All sub-terms, pre-order (each distinct sub-term once)."""
     seen = set()
@@ -825,7 +919,7 @@ def show(term, depth=0, maxdepth=12):
         f = lambda t: "" if t == ("const", None) else s(t)  # noqa: E731
         return f"{f(term[1])}:{f(term[2])}" + (f":{f(term[3])}" if term[3] != ("const", None) else "")
     if k == "call":
-        a = [s(x) for x in term[2]] + [(f"{kk}={s(v)}" if kk else f"**{s(v)}") for kk, v in term[3]]
+        a = [s(x) for x in term[2]] + [(f"{kk}={s(v)}" if kk else f"**{s(v)}") for kk, v in term[3] if kk != "#new"]
         return f"{s(term[1])}({', '.join(a)})"
     if k == "bin":
         return f"({s(term[2])} {term[1]} {s(term[3])})"
